@@ -484,6 +484,18 @@ def fresh_names(state, goal_pos, n, rng):
     return out
 
 
+def clash_names(state, goal_pos, fact_pos=None):
+    """Names declared by `variable` lines visible from `goal_pos`, those declared after the line
+    `fact_pos` (between a cited fact and the goal) first and three times as likely; then the
+    variables of the state."""
+    out = []
+    for pos, it in walk(state):
+        if it.rule == "variable" and it.args and visible(pos, goal_pos):
+            after_fact = fact_pos is not None and not (pos == fact_pos or visible(pos, fact_pos))
+            out += [it.args[0]] * (3 if after_fact else 1)
+    return out + sorted(v.name for v in state.vars)[:2]
+
+
 def visible_facts(state, goal_pos):
     return [pos for pos, it in walk(state) if visible(pos, goal_pos) and it.th is not None]
 
@@ -526,7 +538,14 @@ def fill_params(state, sugg, rng, query=None):
             step["names"] = ", ".join(fresh_names(state, goal_pos, nb, rng))
         elif name == "exists_elim" and p == "names":
             fth = state.get_proof_item(facts[0]).th
-            step["names"] = ", ".join(fresh_names(state, goal_pos, count_binders(fth.prop, "exists"), rng))
+            nb = count_binders(fth.prop, "exists")
+            names = fresh_names(state, goal_pos, nb, rng)
+            if names and rng.random() < 0.12:
+                # near miss: a name that is already declared where the witnesses go (must be refused)
+                clash = clash_names(state, goal_pos, facts[0])
+                if clash:
+                    names[rng.randrange(len(names))] = rng.choice(clash)
+            step["names"] = ", ".join(names)
         elif name == "forall_elim" and p == "s":
             fth = state.get_proof_item(facts[0]).th
             cands = typed(pool, fth.prop.arg.var_T)
@@ -946,6 +965,11 @@ def step_cause(state, step):
             if [p.id for p in nxt.prevs].count(f) > 1:
                 return "assumption-cited-twice"
         if name == "exists_elim":
+            # a witness name that is already declared where the new `variable` lines go (context of the
+            # state or a `variable` line visible from the goal, by the harness's own reading)
+            given = [n.strip() for n in str(step.get("names", "")).split(",")]
+            if set(given) & declared_names(state, gp) or len(set(given)) < len(given):
+                return "witness-name-already-declared"
             i = gp[-1] + 1
             while True:
                 it = state.get_proof_item(gp[:-1] + (i,))
@@ -963,6 +987,15 @@ def step_cause(state, step):
     except Exception:  # noqa
         return None
     return None
+
+
+def declared_names(state, goal_pos):
+    """Names in scope at `goal_pos`: variables of the state and `variable` lines visible from it."""
+    names = {v.name for v in state.vars}
+    for pos, it in walk(state):
+        if it.rule == "variable" and it.args and visible(pos, goal_pos):
+            names.add(it.args[0])
+    return names
 
 
 def clean_step(step):
@@ -1305,6 +1338,10 @@ def probes(r, step, assumes_before, out):
             probe_revert_after(r, step, assumes_before)
         if probe_rng(r, "gate").random() < 0.35:
             probe_invisible_facts(r)
+        if out == "ok" and step is not None:
+            probe_name_clash(r, step)
+        if probe_rng(r, "gate-nm").random() < 0.2:
+            probe_nonmonotone(r)
     except Timeout:
         pass
 
@@ -1357,6 +1394,113 @@ def probe_invisible_facts(r):
                     r.ctx.count("probe:invisible-fact:completed")
     finally:
         r.rng = saved
+
+
+def probe_name_clash(r, step):
+    """After a completed step that declared variables (exists_elim, introduction, new_var, induction):
+    exists_elim at a gap that sees one of the `variable` lines, with a visible existential fact and
+    that variable's name for a witness (near-miss argument), on a copy that is discarded.  The
+    request must be refused; if it completes the judge re-checks the state like any other."""
+    if r.dead or step.get("method_name") not in ("exists_elim", "introduction", "new_var", "induction"):
+        return
+    rng = probe_rng(r, "clash")
+    state = r.state
+    lines = walk(state)
+    cands = []
+    for gp, it in lines:
+        if it.rule != "sorry":
+            continue
+        facts = [f for f in visible_facts(state, gp) if state.get_proof_item(f).th.prop.is_exists()]
+        for f in facts:
+            if any(x.rule == "variable" and x.args and visible(p, gp) for p, x in lines):
+                cands.append((gp, f))
+    if not cands:
+        return
+    saved, r.rng = r.rng, rng
+    try:
+        for gp, f in rng.sample(cands, min(2, len(cands))):
+            clash = clash_names(state, gp, f)
+            nb = count_binders(state.get_proof_item(f).th.prop, "exists")
+            names = fresh_names(state, gp, nb, rng)
+            names[rng.randrange(nb)] = rng.choice(clash)
+            r.ctx.count("probe:name-clash:exists_elim")
+            s2 = {"method_name": "exists_elim", "goal_id": id_str(gp), "fact_ids": [id_str(f)], "names": ", ".join(names)}
+            if r.dead:
+                break
+            out = r.apply(s2, on_copy=True, adopt=False, source="name-clash")
+            if out == "ok":
+                r.ctx.count("probe:name-clash:completed")
+    finally:
+        r.rng = saved
+
+
+def probe_nonmonotone(r):
+    """States whose hypotheses do not grow along the visible lines: `cut` aimed at a line that is NOT
+    a gap (an assume/variable/proved line: the new gap takes the hypotheses of that line, which lack
+    those of some earlier visible line L), the stated goal built from the proposition of L; then
+    every suggestion search_method makes for the new gap (backward steps, introduction: the methods
+    that look for an earlier line proving a new subgoal).  On copies; the sequence goes on from the
+    state it had.  Every completed step is judged like any other."""
+    if r.dead:
+        return
+    rng = probe_rng(r, "nonmonotone")
+    state = r.state
+    lines = walk(state)
+    cands = []
+    for pos, it in lines:
+        if it.th is None or it.rule == "sorry" or pos[-1] == 0:
+            continue
+        hy = set(it.th.hyps)
+        for lp, l in lines:
+            if l.th is not None and visible(lp, pos) and not set(l.th.hyps) <= hy and l.rule != "variable":
+                cands.append((pos, lp))
+    if not cands:
+        return
+    pos, lp = rng.choice(cands)
+    try:
+        p = pr(state.get_proof_item(lp).th.prop)
+        others = [pr(state.get_proof_item(f).th.prop) for f in visible_facts(state, pos)
+                  if state.get_proof_item(f).rule != "variable"]
+        q = rng.choice(others) if others else p
+    except Exception:  # noqa
+        return
+    text = rng.choice(["(%s) & (%s)" % (p, p), "(%s) & (%s)" % (p, q), "(%s) & (%s)" % (q, p), "(%s) | (%s)" % (p, q),
+                       "(%s) --> (%s)" % (q, p), "(%s) & (%s)" % (p, p)])
+    saved_rng, saved_state, saved_trail, saved_frozen = r.rng, r.state, list(r.trail), list(r.frozen)
+    r.rng = rng
+    try:
+        r.ctx.count("probe:nonmonotone:cut")
+        out = r.apply({"method_name": "cut", "goal_id": id_str(pos), "fact_ids": [], "goal": text},
+                      on_copy=True, adopt=True, source="nonmonotone")
+        if out != "ok" or r.dead:
+            return
+        try:
+            with time_limit(STEP_LIMIT):
+                res = r.state.search_method(id_str(pos), [])
+        except Timeout:
+            return
+        except Exception:  # noqa
+            return
+        rng.shuffle(res)
+        done = 0
+        for sg in res:
+            if r.dead or done >= 2:
+                break
+            try:
+                s2 = fill_params(r.state, sg, rng)
+            except Exception:  # noqa
+                s2 = None
+            if s2 is None:
+                continue
+            done += 1
+            o2 = r.apply(s2, on_copy=True, adopt=False, source="nonmonotone")
+            if o2 == "ok":
+                r.ctx.count("probe:nonmonotone:completed:%s" % s2.get("method_name"))
+    finally:
+        r.rng = saved_rng
+        r.state = saved_state
+        r.trail[:] = saved_trail
+        r.frozen[:] = saved_frozen      # (the live state is not a frozen copy: it goes on being edited)
 
 
 def probe_revert_after(r, step, assumes_before):
@@ -1887,7 +2031,8 @@ def run(ctx):
         "goals: every theorem with recorded steps of the listed library theories (at its own point of the theory) and generated "
         "propositional/predicate goals in theory logic; sequences: recorded steps as they are, recorded steps with injected perturbations "
         "(repeat, other goal id, other facts, interleaved cut/cases/introduction/forall_elim/exists_elim/revert_intro/rewrite/apply_prev/"
-        "apply_fact/new_var/inst_exists_goal and search_method suggestions with type-directed parameters), random walks; every step on the "
+        "apply_fact/new_var/inst_exists_goal and search_method suggestions with type-directed parameters; near-miss witness names for "
+        "exists_elim; cut at non-gap lines followed by the suggested backward steps), random walks; every step on the "
         "live state or on copy.copy(state) (adopted or discarded). A case = one completed step judged by all invariants; non-trivial = at "
         "least two completed steps in the sequence; distinct by (goal, completed step sequence).")
     try:                               # `kill -USR1 <pid>` prints where a run is (diagnosis of hangs)
@@ -2005,7 +2150,11 @@ MANIFEST = {
             "again in the same scope; after every step, on discarded copies and with a random stream of their own: revert_intro of the "
             "assumption a structural method (exists_elim, induction, cases, introduction) just introduced, and every fact-taking method / "
             "search with a fact the gap may not cite - a line of a closed earlier sibling block, a later line, a deeper line - which must be "
-            "refused; directed scenarios; live state or copy): contiguous numbering, every citation of every line earlier+visible by the "
+            "refused; after every step that declared variables, exists_elim with a witness name that is already declared at the goal "
+            "(preferably between the cited fact and the goal; also 12% of all generated exists_elim) - must be refused, a completed one is "
+            "keyed recheck-fails:witness-name-already-declared; states whose hypotheses do not grow along the visible lines: cut aimed at "
+            "a line that is not a gap, stating a goal built from the proposition of an earlier line with a hypothesis the new gap lacks, "
+            "then every search_method suggestion for that gap; directed scenarios; live state or copy): contiguous numbering, every citation of every line earlier+visible by the "
             "harness's own reading (same or enclosing block, strictly earlier position), last line = stated goal (stated sequent and rule, "
             "compared after every completed step, and the re-check must return that sequent), full re-check with exactly the open gaps, acceptance with no_gaps when none is left, export->import identity, copy "
             "isolation (lines, variables, report; identity and content of every argument object; no Proof/ProofItem/prevs object shared with a "
